@@ -76,7 +76,7 @@ FREE = {
 # unbounded one shows as a blocked emission / a starved second subscriber)
 LONG = {
     "quick": dict(runs=8, min_events=1500, max_events=3000),
-    "thorough": dict(runs=40, min_events=3000, max_events=30000),
+    "thorough": dict(runs=12, min_events=2500, max_events=6000),
 }
 # Stop() under load (saturating source that runs ahead, fast consumers): a large batch, screened by the
 # driver (see TestVerifBlockNtfnsFree), because the window of the shutdown gap is ~1e-5 per run
@@ -228,9 +228,17 @@ def run(prop_id, tier, seed, replay=None):
         verdict = {"violations": acc.violations, "known": acc.known_seen, "n_lines": acc.n_lines,
                    "wall": acc.judge_wall, "raw": acc.raw}
         g = _LightGraph(sum(x["edges"] for x in graphs), sum(x["violating_edges"] for x in graphs)) if graphs else None
-        return family.finish(prop_id, tier, seed, t0, tlc, g, range(sum(x["paths"] for x in graphs) if graphs else 1),
-                             acc.light, verdict, (acc.d_steps, acc.d_paths, acc.d_samples), extra,
-                             ASSUMPTIONS, label=label)
+        rc = family.finish(prop_id, tier, seed, t0, tlc, g, range(sum(x["paths"] for x in graphs) if graphs else 1),
+                           acc.light, verdict, (acc.d_steps, acc.d_paths, acc.d_samples), extra,
+                           ASSUMPTIONS, label=label)
+        if not replay:
+            # the unbounded per-subscriber queue itself (lnd/queue.ConcurrentQueue, modelled above as a FIFO):
+            # specs/ConcQueue bound to the real queue (notes/smallstructs.md)
+            from . import concqueue
+            rc2, cov2 = concqueue.run_slice("C11", tier, seed)
+            concqueue.merge_evidence("C11", cov2)
+            rc = max(rc, rc2)
+        return rc
     finally:
         shutil.rmtree(sc, ignore_errors=True)
 
